@@ -497,7 +497,7 @@ func (c12Stream) Impl(c Case) string {
 			sample("accept race")
 		}
 		sut.finish()
-		return verdict + "\t" + traceString(sut.tr.Snapshot(), "conn.", "loop.", "req.")
+		return verdict + "\t" + traceString(sut.tr.Snapshot(), "conn.", "loop.", "req.", "run.", "stop.")
 	}
 	k := atoi(p["conns"])
 	var clients []*rawClient
@@ -567,7 +567,7 @@ func (c12Stream) Impl(c Case) string {
 			}
 		}
 		sut.finish()
-		return verdict + "\t" + traceString(sut.tr.Snapshot(), "conn.", "loop.", "req.")
+		return verdict + "\t" + traceString(sut.tr.Snapshot(), "conn.", "loop.", "req.", "run.", "stop.")
 	}
 	if p["kind"] == "stalled" {
 		for _, cl := range clients {
@@ -597,7 +597,7 @@ func (c12Stream) Impl(c Case) string {
 			}
 		}
 		sut.finish()
-		return verdict + "\t" + traceString(sut.tr.Snapshot(), "conn.", "loop.", "req.")
+		return verdict + "\t" + traceString(sut.tr.Snapshot(), "conn.", "loop.", "req.", "run.", "stop.")
 	}
 	// quiescent: clients leave right after Stop is called; blocked handlers are released a little later
 	stopDone := make(chan bool, 1)
@@ -620,7 +620,7 @@ func (c12Stream) Impl(c Case) string {
 		time.Sleep(30 * time.Millisecond)
 	}
 	sut.finish()
-	return verdict + "\t" + traceString(sut.tr.Snapshot(), "conn.", "loop.", "req.")
+	return verdict + "\t" + traceString(sut.tr.Snapshot(), "conn.", "loop.", "req.", "run.", "stop.")
 }
 
 func (c12Stream) ModelLine(c Case, trace string) string { return "trace conn " + trace }
